@@ -184,6 +184,45 @@ def check_scenarios(tier):
             continue
         if observe_palette(o) != {a: d[a] for a in T.AA}:
             acc.viol("palette-not-committed", "palette with extra keys: rendering shows %r" % (sorted(observe_palette(o).items())[:6],), case)
+    # two handles on one sequence object (a second SequenceParameters built with SeqObj=, and the backend object itself): an update
+    # accepted through one handle, then a rejected one through the other - every handle must still render the accepted palette
+    from localcider.sequenceParameters import SequenceParameters as _SP
+    p1 = {a: T.HTML_COLOURS[(11 * i + 5) % 17] for i, a in enumerate(T.AA)}
+    p2 = {a: T.HTML_COLOURS[(2 * i + 9) % 17] for i, a in enumerate(T.AA)}
+    bads = [{a: "red" for a in T.AA if a != "W"}, dict(p1, K="notacolour"), {}, None]
+    for bi, bad in enumerate(bads):
+        for route in ("second-wrapper", "backend-object", "second-wrapper-then-first"):
+            case = {"kind": "two-handles", "route": route, "index": bi}
+            acc.transitions += 3
+            acc.traces += 1
+            A = SP(CYCLE)
+            B = _SP(SeqObj=A.SeqObj)
+            try:
+                if route == "backend-object":
+                    A.SeqObj.set_HTMLColorResiduePalette(dict(p1))
+                    want = p1
+                else:
+                    B.set_HTMLColorResiduePalette(dict(p1))
+                    want = p1
+                    if route == "second-wrapper-then-first":
+                        A.set_HTMLColorResiduePalette(dict(p2))
+                        want = p2
+            except Exception as e:  # noqa
+                acc.viol("valid-palette-rejected", "valid palette through %s rejected (%r)" % (route, e), case)
+                continue
+            for h, hn in ((A, "first"), (B, "second")):
+                try:
+                    h.set_HTMLColorResiduePalette(bad if not isinstance(bad, dict) else dict(bad))
+                    acc.viol("invalid-palette-accepted", "invalid palette %d accepted through the %s handle" % (bi, hn), case)
+                except Exception:  # noqa
+                    pass
+                for h2, hn2 in ((A, "first"), (B, "second")):
+                    obs = observe_palette(h2)
+                    if obs != want:
+                        acc.viol("rejected-update-changed-palette", "two handles on one sequence object (%s): after a rejected update through the %s "
+                                 "handle the %s handle renders %r instead of the last accepted palette"
+                                 % (route, hn, hn2, obs if isinstance(obs, str) else sorted(obs.items())[:5]), case)
+                        break
     # the same mapping with its keys inserted in other orders (a dictionary's insertion order carries no meaning)
     base = {a: T.HTML_COLOURS[(7 * i + 3) % 17] for i, a in enumerate(T.AA)}
     orders = {"reversed": list(reversed(T.AA)), "chemistry-groups": list("KRHDESTNQCGPAVILMFYW"), "rotated": list(T.AA[9:]) + list(T.AA[:9]),
@@ -351,10 +390,11 @@ def render_shard(args):
 
 
 def replay(case):
-    if case.get("kind") in ("reused-dict", "first-object", "extra-keys", "context", "key-order"):
+    if case.get("kind") in ("reused-dict", "first-object", "extra-keys", "context", "key-order", "two-handles"):
         a = check_scenarios("quick")
         return [v for v in a.violations if v["case"].get("palette") == case.get("palette") and v["case"]["kind"] == case["kind"]
-                and v["case"].get("index") == case.get("index") and v["case"].get("order") == case.get("order")]
+                and v["case"].get("index") == case.get("index") and v["case"].get("order") == case.get("order")
+                and v["case"].get("route") == case.get("route")]
     full = case.get("tier") == "thorough"
     ops = {o[0]: o for o in ops_list(full)}
     out = []
@@ -415,7 +455,7 @@ def run(tier, seed, t0):
              "palette entry, exactly one space before residues 0,10,20,.., a <br> before residues 0,50,100,.., stripped markup == "
              "sequence. Scenarios: the caller edits its own dictionary in place after an accepted update (the palette must not follow, the "
              "re-submission must be rejected and change nothing); in a freshly imported package the very first object receives each "
-             "valid palette and an object created afterwards must still render with the default. a dictionary that colours all 20 residues validly and carries extra keys is accepted (extras ignored); two palettes resubmitted with their keys inserted in six other orders render identically; after analyses, plots and a shuffle on the same object the palette is unchanged. dont-care: upper-case colour names; non-trivial = renders longer than one block of 10" % (
+             "valid palette and an object created afterwards must still render with the default. a dictionary that colours all 20 residues validly and carries extra keys is accepted (extras ignored); two palettes resubmitted with their keys inserted in six other orders render identically; with two handles on one sequence object (second wrapper / backend object) an update accepted through one and rejected through the other leaves every handle on the accepted palette; after analyses, plots and a shuffle on the same object the palette is unchanged. dont-care: upper-case colour names; non-trivial = renders longer than one block of 10" % (
                  len(ops), "all" if full else "3", ", None, 5" if full else "", "1..120" if full else "{1,9,10,11,20,49,50,51,60,99,100,101,120}"),
         bounds={"palette_ops": len(ops), "render_inputs_per_state": len(seqs), "depth": "fixpoint"},
         assumptions=["the palette is observed through rendering only (no attribute reads)"])
